@@ -268,6 +268,54 @@ theorem C13_align_full_holds (names : List Name) :
     replicate_one_sum, if_true] at *
   omega
 
+/-- the fold attains its value: a non-zero width is the width of one of the names -/
+theorem align_fold_attained (ns : List Name) (w : Nat) :
+    ns.foldl (fun w n => max w n.cols) w = w ∨ ∃ n ∈ ns, n.cols = ns.foldl (fun w n => max w n.cols) w := by
+  induction ns generalizing w with
+  | nil => exact .inl rfl
+  | cons a r ih =>
+    simp only [List.foldl_cons]
+    rcases ih (max w a.cols) with h | ⟨n, hn, h⟩
+    · rw [h]
+      rcases Nat.le_total w a.cols with hle | hle
+      · exact .inr ⟨a, by simp, by rw [Nat.max_eq_right hle]⟩
+      · exact .inl (Nat.max_eq_left hle)
+    · exact .inr ⟨n, by simp [hn], h⟩
+
+/-- **C13_align_widest_printed** — "aligned names are padded to the widest PRINTED name": the `-w` width the
+code computes is an upper bound of every printing source's name and is attained by a printing source
+(or is 0 when nothing prints); sources that print nothing do not widen it. Unfolds the generated
+`ALIGN_OVER_PRINTING_SOURCES`. -/
+theorem C13_align_widest_printed (srcs : List (Name × Bool)) :
+    (∀ s ∈ srcs, s.2 = true → s.1.cols ≤ alignWidthSrcs srcs) ∧
+    (alignWidthSrcs srcs = 0 ∨ ∃ s ∈ srcs, s.2 = true ∧ s.1.cols = alignWidthSrcs srcs) := by
+  have hnames : alignNames S4V.Gen.Print.ALIGN_OVER_PRINTING_SOURCES srcs = (srcs.filter (·.2)).map (·.1) := by
+    simp [alignNames, S4V.Gen.Print.ALIGN_OVER_PRINTING_SOURCES]
+  unfold alignWidthSrcs
+  rw [hnames]
+  constructor
+  · intro s hs hp
+    exact align_le_fold _ 0 s.1 (List.mem_map.mpr ⟨s, List.mem_filter.mpr ⟨hs, hp⟩, rfl⟩)
+  · rcases align_fold_attained ((srcs.filter (·.2)).map (·.1)) 0 with h | ⟨n, hn, h⟩
+    · exact .inl h
+    · obtain ⟨s, hs, rfl⟩ := List.mem_map.mp hn
+      have := List.mem_filter.mp hs
+      exact .inr ⟨s, this.1, this.2, h⟩
+
+/-- a silent source with the widest name does not change the width -/
+example : alignWidthSrcs [([1, 1, 1], true), ([1, 1, 1, 1, 1, 1, 1, 1, 1], false), ([1, 1], true)] = 3 := by decide
+
+/-- the statement for a width taken over ALL sources (the loop over `map_pathid_path`) -/
+def C13_align_over_all_sources : Prop :=
+  ∀ srcs : List (Name × Bool),
+    alignWidth (alignNames false srcs) = 0 ∨ ∃ s ∈ srcs, s.2 = true ∧ s.1.cols = alignWidth (alignNames false srcs)
+
+/-- … is false: a source that prints nothing but has the widest name over-pads every printed name -/
+theorem align_over_all_sources_overpads : ¬ C13_align_over_all_sources := by
+  intro h
+  have := h [([1, 1, 1], true), ([1, 1, 1, 1, 1, 1, 1, 1, 1], false)]
+  revert this; decide
+
 /-- names whose chars are all one column wide (ASCII) -/
 theorem C13_align (names : List Name) (_h : ∀ n ∈ names, ∀ c ∈ n, c = 1) :
     ∀ n ∈ names, (padName n (alignWidth names)).cols = alignWidth names :=
